@@ -113,7 +113,12 @@ public:
   static void estate(IPhreeqc* p, const std::string& tag, std::ostream& o);
 };
 
-#include "c07_members_gen.hpp"   // generated by tools/gen_members.py: TestIPhreeqc::estate
+// generated by tools/gen_members.py (TestIPhreeqc::estate); props/c07.py passes -I <build>/c07gen, a plain build finds it in /verif/build
+#if __has_include("c07_members_gen.hpp")
+#include "c07_members_gen.hpp"
+#else
+#include "../build/c07gen/c07_members_gen.hpp"
+#endif
 
 static double cbfn(double x1, double x2, const char* s, void* cookie) { return x1 * 1000 + x2 + (s ? (double)strlen(s) : 0); }
 
